@@ -60,7 +60,15 @@ def gen_cases(rng, tier):
             p = rng.choice(spec["params"])
             events.append({"phase": rng.choice(["pre", "post", "post", "post_solve"]), "name": p["name"],
                            "value": rand_value(rng, p, N)})
+        # interleave guess updates: they must not disturb any parameter value
+        dec = list(spec["controls"]) or [s for s in spec["states"] if not s.get("quad") and
+                                         spec["method"]["cls"] != "DC"]   # DC state guesses are C10's subject
+        for _ in range(rng.randint(0, 2) if dec else 0):
+            tgt = rng.choice(dec)
+            events.insert(rng.randint(0, len(events)), {"phase": rng.choice(["post", "post_solve"]), "op": "set_initial",
+                                                        "name": tgt["name"], "value": ocpgen.rnd(rng, -2, 2)})
         order = {"pre": 0, "post": 1, "post_solve": 2}
+        events.sort(key=lambda e: order[e["phase"]])
         events.sort(key=lambda e: order[e["phase"]])
         solve = any(e["phase"] == "post_solve" for e in events) and spec["method"].get("intg") in (None, "rk", "expl_euler")
         if not solve:
@@ -151,7 +159,8 @@ def run_case(case):
     from . import engine
     spec = case["spec"]
     events = case["events"]
-    pattern = "".join({"pre": "b", "post": "a", "post_solve": "s"}[e["phase"]] for e in events)
+    pattern = "".join(({"pre": "b", "post": "a", "post_solve": "s"}[e["phase"]]).upper() if e.get("op") else
+                      {"pre": "b", "post": "a", "post_solve": "s"}[e["phase"]] for e in events)
     sig = C.config_sig(spec, pattern)
     res = {"sig": sig, "evals": 0, "violations": [],
            "counters": {"param_readbacks": 0, "nlp_compares": 0, "events": 0, "const_twin_compares": 0, "solves": 0}}
@@ -235,11 +244,20 @@ def run_case(case):
                 res["violations"].append(C.exc_violation(ID, C.RockitRaised("solve_limited", ex), "history"))
                 return res
         try:
-            C.call("set_value(%s)" % e["phase"], b.stage.set_value, b.syms[e["name"]],
-                   build.param_value({"value": e["value"]}))
+            if e.get("op") == "set_initial":
+                C.call("set_initial(%s)" % e["phase"], b.stage.set_initial, b.syms[e["name"]], e["value"])
+            else:
+                C.call("set_value(%s)" % e["phase"], b.stage.set_value, b.syms[e["name"]],
+                       build.param_value({"value": e["value"]}))
         except C.RockitRaised as ex:
             res["violations"].append(C.exc_violation(ID, ex, "history"))
             return res
+        if e.get("op") == "set_initial":
+            res["counters"]["events"] += 1
+            obs.refresh()
+            if not compare("after set_initial following set_value events", 1):
+                return res
+            continue
         shadow[e["name"]] = e["value"]
         res["counters"]["events"] += 1
         obs.refresh()
